@@ -334,6 +334,31 @@ fn check_bank_output(
         }
     }
 
+    if let Some(output_offset) = bankdef.output_offset
+    {
+        let in_range = output_offset
+            .checked_add(ctx.bank_data.cur_position)
+            .and_then(|p| p.checked_add(size))
+            .map_or(false, |end| (end as u64) <= util::OUTPUT_MAX_BITS);
+
+        if !in_range
+        {
+            report.push_parent(
+                format!(
+                    "output out of supported range in bank `{}`",
+                    bankdef_decl.name),
+                span);
+
+            report.note_span(
+                "bank defined here:",
+                bankdef_decl.span);
+
+            report.pop_parent();
+
+            return Err(());
+        }
+    }
+
     if write && bankdef.output_offset.is_none()
     {
         report.push_parent(
